@@ -9,6 +9,14 @@ TB = ("rustc (nightly 1.97) parsing, macro expansion, type checking and MIR cons
       "hand-written oracle tables under spec/ (each entry carries its reason)")
 
 CLAIMS = {
+    "C12": {
+        "technique": "static analysis: abstract interpretation of all public Builder methods over the selection typestate, reachable-state closure, MIR who-may-write census",
+        "text": "All 1160+ public Builder methods are abstractly interpreted in every selection state reachable from Builder::new() (unknown data forks, calls inlined): no panicking path, the "
+                "invariant block-selected => function-selected-and-index-valid holds in every reachable state (violations are reported as the shortest call history), the guard table of the "
+                "statement holds cell by cell, and no Err path has modified the module's instructions. Offsets within the block are assumed as the statement says.",
+        "design_ref": "DESIGN.md 3/C12, B.3", "note": TB + "; sound only for the idioms the interpreter recognises - anything else fails closed",
+    },
+
     "C06": {
         "technique": "static analysis: symbolic reading of all 1121 instruction-emitting Builder methods joined with the loader's abstractly interpreted automaton and the grammar table",
         "text": "For every instruction-emitting Builder method: the container it emits into equals the container the loader files that opcode into in the corresponding state (R-SECT); "
